@@ -218,7 +218,7 @@ def run(ctx):
         nf = rng.choice([1, 5, 60, 300])
         wrap = rng.random() < 0.5
         nhdr = {'V': 2, 'W': rng.randint(4, 8), 'C': nc, 'P': rng.randint(0, 7)}
-        content = make_content(rng, nhdr, nf, wrap, rng.choice(['2.0', '1.2']))
+        content = make_content(rng, nhdr, nf, wrap, rng.choice(['2.0', '1.2', '2.00', '1.20']))
         hist = []
 
         def extras():
